@@ -1411,7 +1411,14 @@ def run(chk: core.Check):
                 chk.branch("gen:" + b, chk.branches.get(b, 0) - before[b])
         # one defect, one report: a disagreement that a direct oracle confirmed on some case is reported as that
         # confirmed violation (first), not additionally as an unconfirmed model/code difference of the same signature
+        # (the exact emulation of the thresholds and the precision budget look at the same mechanism, so do the output
+        # matrix, its diagonal and the input matrix of the density-matrix route)
+        related = [{"trim-model", "trim-bound", "precision-exceeded"},
+                   {"dm-evolve", "dm-probs", "dm-from-svd", "dm-vs-svd"}]
         confirmed = {f[1] for f in chk.failures if f[0] == "violation"}
+        for grp in related:
+            if grp & confirmed:
+                confirmed |= grp
         chk.failures[:] = ([f for f in chk.failures if f[0] == "violation"] +
                            [f for f in chk.failures if f[0] != "violation" and f[1] not in confirmed])
     finally:
